@@ -98,6 +98,7 @@ inductive PanicSite where
   | configInvalid          -- `WebSocketConfig::assert_valid`
   | utf8CheckedSub         -- utf-8 crate: `checked_sub(..).unwrap()`
   | fuel                   -- a model loop ran out of fuel (proved unreachable)
+  | readInCapacity         -- read_in: `debug_assert!(self.in_buffer.capacity() > len)`
   deriving DecidableEq, Repr, Inhabited
 
 inductive Res (α : Type) where
